@@ -117,6 +117,7 @@ def oracle_lockfam(run):
                 # is fine; a write that rests on a read made under an earlier acquisition is not: another thread's write in
                 # between would be lost).  Stated on values and critical sections only, not on how the operation is coded.
                 opn = cur.get(tid, "").split("!")[0].split("=")[0]
+                opn = "xc" if opn == "xl" else opn
                 mine = seen.get(tid, [])
                 here = [x for kk, x in mine[brk.get(tid, 0):] if kk == "prd"]
                 earlier = [x for kk, x in mine[:brk.get(tid, 0)] if kk == "prd"]
@@ -141,6 +142,7 @@ def oracle_lockfam(run):
                 # C15 on identities: values that compare equal need not be the same value (T::operator== may be coarser
                 # than identity); an operation must hand back THE value that was in the register at its atomic step
                 opn = cur.get(tid, "").split("!")[0].split("=")[0]
+                opn = "xc" if opn == "xl" else opn
                 if opn == "xc" and pre_rev.get(tid) is not None and res_rev[tid] != pre_rev[tid]:
                     return ("%s by thread %d handed back value #%d but the value it replaced was #%d (equal, not identical): "
                             "another thread's store in between was overwritten without being observed — no order of the "
@@ -175,6 +177,8 @@ def _register_check(op, res, acc, pre=None):
         name = "rd"
     if name == "mv":
         name = "md"
+    if name == "xl":
+        name = "xc"
     if name in ("ld", "cv", "rd"):
         if not reads or writes or not res or int(res[0]) != reads[-1]:
             return "%s returned %s, read %s, wrote %s" % (op, res, reads, writes)
